@@ -19,6 +19,15 @@ def FrameOk (f : Frame) : Prop :=
 
 instance (f : Frame) : Decidable (FrameOk f) := by unfold FrameOk; infer_instance
 
+/-- `FrameOk` without the time window (which depends on where the client's time line starts) -/
+def FrameFits (f : Frame) : Prop :=
+  (f.mediaType = 0 → f.payload ≠ []) ∧ f.payload.length + 9 < 16777216 ∧
+  -8388608 ≤ msOf f.pts - msOf f.dts ∧ msOf f.pts - msOf f.dts < 8388608
+
+instance (f : Frame) : Decidable (FrameFits f) := by unfold FrameFits; infer_instance
+
+theorem FrameOk.fits {f : Frame} (h : FrameOk f) : FrameFits f := ⟨h.1, h.2.1, h.2.2.2.2.1, h.2.2.2.2.2⟩
+
 /-! ### the rebase, for any tag whose timestamp is a truncated source time -/
 
 theorem rebase_fixed_tag (cfg : Cfg) (hc : Cfg.writerFixed cfg) (t0 T : Int) (t : Tag)
@@ -350,10 +359,10 @@ theorem packetize_not_carried (vm : VideoMeta) (am : AudioMeta) (f : Frame)
 
 /-- a carried, admissible frame produces exactly one well-formed tag carrying it -/
 theorem packetize_carried (vm : VideoMeta) (am : AudioMeta) (f : Frame) (hcodec : vm.codec ≠ .other)
-    (hc : carried (srcOf vm am) f = true) (hok : FrameOk f) :
+    (hc : carried (srcOf vm am) f = true) (hok : FrameFits f) :
     ∃ t, packetize vm am f = ([t], false) ∧ Tag.wf t ∧ t.timestamp = u32OfInt (tagTimeMs f) ∧
       ∀ d, mediaTagCarries (srcOf vm am) f (viewTag t d) = true := by
-  obtain ⟨hne, hlen, _, _, hc1, hc2⟩ := hok
+  obtain ⟨hne, hlen, hc1, hc2⟩ := hok
   by_cases h0 : f.mediaType = 0
   · -- video
     have hpl := hne h0
@@ -521,7 +530,7 @@ theorem mediaTags_spec (cfg : Cfg) (hc : Cfg.writerFixed cfg) (vm : VideoMeta) (
     obtain ⟨i1, i2, i3⟩ := ih hfs
     by_cases hcar : carried (srcOf vm am) f = true
     · have hok := hall f (by simp) hcar
-      obtain ⟨t, hp, hwf, hts, hcarries⟩ := packetize_carried vm am f hcodec hcar hok
+      obtain ⟨t, hp, hwf, hts, hcarries⟩ := packetize_carried vm am f hcodec hcar hok.fits
       have hreb := rebase_fixed_tag cfg hc 0 (tagTimeMs f) t hts (by have := hok.2.2.1; omega) (by have := hok.2.2.2.1; omega)
       refine ⟨?_, ?_, ?_⟩
       · intro g hg
